@@ -12,7 +12,7 @@ INFO = {
             "this._.k, this._params.k, sibling, two levels up, _root) x every embedding (top level, Struct member, nested Struct, Array, "
             "Prefixed, IfThenElse, Switch, Aligned, Renamed) x contexts that supply each alphabet value or omit the key. "
             "non-trivial = sizeof answered and the stream advance of build and parse was measured; distinct = (term, kw, value)",
-    "bounds": {"quick": {"ctx_values": [0, 1, 2, 3]}, "thorough": {"ctx_values": [0, 1, 2, 3, 5, 255, 256]}},
+    "bounds": {"quick": {"ctx_values": [0, 1, 2, 3]}, "thorough": {"ctx_values": [0, 1, 2, 3, 5, 255, 256], "values": "every value read from every n-byte string over S6 (n<=4), {00,01,ff} (n<=6), {00,ff} (n<=8)"}},
     "trusted_base": ["mc/ref.py sizeof (cross-check only; the verdict is the measured stream advance and the exception class)"],
     "assumptions": ["exempt by the property: read-to-EOF transforms outside a delimiter are measured with an empty trailer only; "
                     "negative lengths and modulus < 2 are not in the context alphabet"],
@@ -66,13 +66,26 @@ def measure(t, d, n, kw, tsig, r, values=None):
     greedy = G.attrs(t).extent == "greedy"
     cands = []
     if values is not None:
-        cands = values
+        cands = list(values)
     # values from exactly-n-byte inputs through the reference (covers context-dependent terms)
+    xs = []
+    if _TIER[0] == "thorough" and 0 < n <= 8:
+        # every n-byte string over S6 (n <= 4) / over {00, ff, 01} per position (n <= 6) / {00, ff} (n <= 8)
+        alpha = (0x00, 0x01, 0x02, 0x7f, 0x80, 0xff) if n <= 4 else ((0x00, 0x01, 0xff) if n <= 6 else (0x00, 0xff))
+        xs = [bytes(c) for c in itertools.product(alpha, repeat=n)]
+    for x in xs:
+        try:
+            v, end = R.parse(t, x + b"\xee", **kw) if not greedy else R.parse(t, x, **kw)
+            if end == n:
+                cands.append(T.denorm(v))
+        except Exception:
+            pass
     for filler in (0x00, 0x01, 0xff, None):
         x = bytes(n) if filler == 0 else (bytes([filler]) * n if filler is not None else bytes((i * 37 + 11) % 256 for i in range(n)))
         try:
             v, end = R.parse(t, x + b"\xee", **kw) if not greedy else R.parse(t, x, **kw)
-            cands.append(T.denorm(v))
+            if end == n:
+                cands.append(T.denorm(v))
         except Exception:
             pass
     seen = set()
@@ -322,8 +335,12 @@ def run_slot(index, tier, r):
     r.sample({"slot": name, "embeddings": len(embeddings()), "values": param_values(kind, tier)})
 
 
+_TIER = ["quick"]
+
+
 def run_unit(unit, tier):
     r = UnitResult()
+    _TIER[0] = tier
     if unit["kind"] == "terms":
         run_terms(unit, tier, r)
     else:
